@@ -80,13 +80,23 @@ class Concretizer:
                     except Exception:
                         pass
             pnames = {}
-            for (kind, d), g in [(k, f) for k, f in self.z.funcs.items() if isinstance(k, tuple) and len(k) == 2 and k[0] == 'G']:
+            # whole-output classes per producer, then what each (producer, consumer) pair sees of them
+            for (kind, u), bf in [(k, f) for k, f in self.z.funcs.items() if isinstance(k, tuple) and len(k) == 2 and k[0] == 'B']:
                 for v in allvals:
                     c = val_term.get(v)
                     if c is None:
                         continue
-                    pv = str(self.model.eval(g(self.z.cls(c)), model_completion=True))
-                    classes[d + '\x01' + v] = pnames.setdefault((d, pv), 'p%d' % len(pnames))
+                    pv = str(self.model.eval(bf(c), model_completion=True))
+                    classes[u + '\x02!!!\x01' + v] = pnames.setdefault(('B', u, pv), 'b%d' % len(pnames))
+            for (kind, key), g in [(k, f) for k, f in self.z.funcs.items() if isinstance(k, tuple) and len(k) == 2 and k[0] == 'G']:
+                u = key.split('\x02', 1)[0] if '\x02' in key else None
+                base = self.z.cls if u is None else self.z.base_fn(u)
+                for v in allvals:
+                    c = val_term.get(v)
+                    if c is None:
+                        continue
+                    pv = str(self.model.eval(g(base(c)), model_completion=True))
+                    classes[key + '\x01' + v] = pnames.setdefault((key, pv), 'p%d' % len(pnames))
         return S.Scenario(name, uni.mode, hist, present, classes, dict(uni.inputs), uni.nodes, uni.edges, events)
 
 
